@@ -288,3 +288,20 @@ package execution
 //@   loop 1 step each: calls(Poll) == old(calls(Poll)) + 1 && lastrecv(Poll) == c.triggers[i] && len(output) == old(len(output)) + len(lastres(Poll)) && forall(j, 0, old(len(output)), same(output[j], old(output[j])))
 //@   loop 1 invariant count: 0 <= $k && $k <= len(c.triggers) && calls(Poll) == old(calls(Poll)) + $k
 //@   ensures all: calls(Poll) == old(calls(Poll)) + len(c.triggers)
+
+// C06/C01: a sub-query expression collects one element per record of its source, in order — the first column
+// (single-column form) or the whole row as a struct (multi-column form) — and fails when the source fails or sends a
+// retraction (which the expression cannot represent); nothing is forwarded downstream.
+//@ func (*SingleColumnQueryExpression).Evaluate
+//@   stream 1 assumes len(IN) > 0 ==> len(lastIn().Values) >= 1
+//@   stream 1 invariant collected: len(values) == len(IN) && len(OUT) == 0 && len(OUTM) == 0
+//@   stream 1 step IN column: stepErr == nil ==> !lastIn().Retraction && same(values[len(values)-1], lastIn().Values[0]) && forall(j, 0, old(len(values)), same(values[j], old(values[j])))
+//@   stream 1 step IN retraction: lastIn().Retraction ==> stepErr != nil
+//@   ensures errprop: runErr != nil ==> result1 != nil
+//@   ensures list: result1 == nil ==> result0.TypeID == 7 && len(result0.List) == len(IN)
+//@ func (*MultiColumnQueryExpression).Evaluate
+//@   stream 1 invariant collected: len(values) == len(IN) && len(OUT) == 0 && len(OUTM) == 0
+//@   stream 1 step IN row: stepErr == nil ==> !lastIn().Retraction && values[len(values)-1].TypeID == 8 && len(values[len(values)-1].Struct) == len(lastIn().Values) && forall(j, 0, old(len(values)), same(values[j], old(values[j])))
+//@   stream 1 step IN retraction: lastIn().Retraction ==> stepErr != nil
+//@   ensures errprop: runErr != nil ==> result1 != nil
+//@   ensures list: result1 == nil ==> result0.TypeID == 7 && len(result0.List) == len(IN)
